@@ -190,6 +190,7 @@ def run(ctx, coro, cancel_at=None, cancel_exc=None, max_steps=200000):
             to_throw = cancel_exc
             thrown = True
             ctx.throw_target = y if ours else None
+            ctx.cancel_log_index = len(getattr(ctx, "log", ()))  # what is logged from here on happened afterwards
 
 
 class Task:
